@@ -6,6 +6,7 @@ C04 — Tags and keys are a function of exactly (measurement, epoch, threshold).
 of STROBE on two different operation lists (random-oracle assumption on STROBE over Keccak-f);
 (E) share points of independent clients are pairwise distinct (OS RNG) — measured by the oracle.
 -/
+import StarModel.Lemmas.Skeleton
 import StarModel.Lemmas.Transcript
 import StarModel.Lemmas.Star
 import StarModel.Props.C01
